@@ -13,6 +13,11 @@ Driver for C32 (copy). Records per case:
   tr2 <op> <type>                      destination mutations of run 2
   check1 ok|err <hex>                  check --read-data of the destination after run 1
   mutations <n>                        crash <k> <copy result> <check result> <nsnaps> <hex>
+  per crashed prefix k and variant (plain | repair-index = `repair index` first) the copy is run again:
+  rhas <k> <v> <typ:id>*               handles the crashed destination's index lists
+  rs0|rs1 <k> <v> <snapshot fields>    destination snapshots before / after the resumed copy
+  rup <k> <v> <typ:id>*                blobs of the packs the resumed copy stored
+  resume <k> <v> <copy result> <check --read-data result> <hex>
 -/
 open Driver Restic.Model.Copy
 
@@ -72,6 +77,29 @@ def handle (c : Case) : Verdict :=
   match crashes.find? (fun r => r.getD 3 "" != "ok") with
   | some r => .specfalse "C32:prefix:crashed-copy-leaves-unrestorable-snapshot" s!"{lbl} k={r.getD 1 ""}"
   | none =>
+  -- resumed copies after a crash: the destination must be healed
+  let resumes := (c.findAll "resume").toList
+  let kv (r : Array String) (k v : String) : Bool := r.getD 1 "" == k && r.getD 2 "" == v
+  let resumeBad := resumes.findSome? fun r =>
+    let k := r.getD 1 ""; let v := r.getD 2 ""
+    let rs1 := ((c.findAll "rs1").toList.filter (kv · k v)).map (snapAt · 3)
+    if r.getD 3 "" != "ok" then some ("C32:resume:resumed-copy-failed", s!"k={k} {v}")
+    else if r.getD 4 "" != "ok" then some ("C32:resume:snapshot-data-missing-after-resumed-copy", s!"k={k} {v}")
+    else if !specFaithful requested rs1 then some ("C32:resume:requested-snapshot-missing-after-resumed-copy", s!"k={k} {v}")
+    else none
+  match resumeBad with
+  | some (sig, d) => .specfalse sig s!"{lbl} {d}"
+  | none =>
+  let resumeDiff := resumes.findSome? fun r =>
+    let k := r.getD 1 ""; let v := r.getD 2 ""
+    let rs0 := ((c.findAll "rs0").toList.filter (kv · k v)).map (snapAt · 3)
+    let rhas := match (c.findAll "rhas").toList.find? (kv · k v) with | some d => d.toList.drop 3 | none => []
+    let rup := match (c.findAll "rup").toList.find? (kv · k v) with | some d => d.toList.drop 3 | none => []
+    let mUp := sortS ((copyRun reach rhas [selected requested rs0]).flatMap fun e => match e with | .savePack _ bs => bs | _ => [])
+    if mUp != sortS rup then some s!"k={k} {v} model-only={mUp.filter (!rup.contains ·)} impl-only={(sortS rup).filter (!mUp.contains ·)}" else none
+  match resumeDiff with
+  | some d => .differ "resumed-copy-uploaded-blobs" s!"{lbl} {d}"
+  | none =>
   if (c.find "res2").map (·.getD 1 "") != some "ok" then .specfalse "C32:idempotent:second-run-failed" s!"{lbl}" else
   if !(c.findAll "tr2").isEmpty then .specfalse "C32:idempotent:second-run-writes" s!"{lbl} ops={(c.findAll "tr2").toList.map (·.toList.drop 1)}" else
   if !specIdempotent requested dst1 then .specfalse "C32:idempotent:copied-snapshot-not-recognised" s!"{lbl}" else
@@ -92,6 +120,8 @@ def handle (c : Case) : Verdict :=
     (if sel.isEmpty then ["nothing-to-copy"] else []) ++
     (if mBlobs.isEmpty && !sel.isEmpty then ["all-blobs-already-in-dst"] else []) ++
     (if crashes.isEmpty then [] else ["crash-prefixes"]) ++
+    (if resumes.isEmpty then [] else ["resumed-after-crash"]) ++
+    (if resumes.any (·.getD 2 "" == "repair-index") then ["resumed-after-repair-index"] else []) ++
     (if requested.any (·.original.isSome) then ["requested-has-original"] else [])
   .agree (!sel.isEmpty) labels
 
